@@ -118,7 +118,7 @@ class Ctx(object):
 
 # ---------------------------------------------------------------------------------------------------
 def regenerate(ctx, want):
-    """want: set of generator names ('trace', 'tables', 'ast').  Returns dict; records Broken on refusal."""
+    """want: set of generator names ('trace', 'tables', 'ast', 'checks').  Returns dict; records Broken on refusal."""
     sys.path.insert(0, REPO)
     res = {}
     if 'trace' in want:
@@ -133,6 +133,12 @@ def regenerate(ctx, want):
             res['tables'] = tables.generate(GEN, write_if_changed)
         except Exception as e:
             ctx.broken.append(Broken('translator', 'T2 table extractor refused: %s' % e, traceback.format_exc()))
+    if 'checks' in want:
+        from . import checksgen
+        try:
+            res['checks'] = checksgen.generate(GEN, write_if_changed, REPO)
+        except Exception as e:
+            ctx.broken.append(Broken('translator', 'T3c translator of xfab/checks.py and the guard sites refused: %s' % e, traceback.format_exc()))
     if 'ast' in want:
         from . import pyast
         try:
@@ -433,7 +439,7 @@ def replay(pid, spec, path):
     return 0
 
 
-SETUP_WANT = {'trace', 'tables', 'ast'}
+SETUP_WANT = {'trace', 'tables', 'ast', 'checks'}
 
 
 def setup():
